@@ -200,7 +200,7 @@ def xor_(*args):
         # return error code
         return values
     else:
-        return sum(bool(v) for v in values) % 2
+        return sum(bool(v) for v in values) % 2 == 1
 
 
 # Older mappings for excel functions that match Python built-in and keywords
